@@ -343,4 +343,11 @@ Section Refine.
     intros H. destruct (run_qr fuel q_init q_init prog m' init_qr H) as [s' [A B]].
     exists s'. split; [exact A|]. split; [apply (qr_t _ _ B)|]. split; [apply (qr_err _ _ B)|exact B].
   Qed.
+  Corollary mechanism_never_misuses_slots fuel prog m' :
+    q_run true ordered klt behav pbehav fuel q_init prog = Some m' ->
+    qerr m' = false /\ Forall is_none (flist m').
+  Proof.
+    intros H. destruct (queue_refines_fifo fuel prog m' H) as [s' [_ [_ [E Q]]]].
+    exact (conj E (qr_f _ _ Q)).
+  Qed.
 End Refine.
